@@ -186,6 +186,9 @@ def tie_rows(d, grid):
     for combo in itertools.product(iv, repeat=d):
         rows.append([c[0] for c in combo] + [c[1] for c in combo])
     rows.append([NAN] * (2 * d))
+    # a row that is undefined in one dimension only is undefined as a box: it is in no answer and adds nothing to total_bounds,
+    # although its finite entries lie far outside everything else
+    rows.append([NAN if k % d == 0 else (-50.0 if k < d else 60.0) for k in range(2 * d)] if d > 1 else [NAN, 60.0])
     return rows
 
 
@@ -387,6 +390,19 @@ def run(ctx):
                                        copied=(None, "pickle", "deepcopy", "pickle_after_query", "caller_overwrites")[(idx + pi) % 5])
         if ci == 0:
             check_seam(col)
+        if ci in (6, 7):
+            # the highest curve orders with enough rows for (distance x row count) to leave 63 bits
+            d = 2 if ci == 6 else 3
+            for n in (3, 8, 9, 33):
+                rows = []
+                for i in range(n):
+                    lo = [float((i * (3 + k)) % 7) for k in range(d)]
+                    rows.append(lo + [v + 1.0 + (i % 2) for v in lo])
+                b = np.array(rows, dtype=float)
+                qs = tie_queries(d, [-1, 0, 2, 3.5, 9])
+                for p in (20, 21, 29, 30, 31):
+                    for ps in (1, 3, 512):
+                        check_tree(col, "highp%d" % d, b, p, ps, qs, copied=(None, "pickle_after_query")[(n + p) % 2])
         if ci in (4, 5):
             # boxes with infinite extent are boxes too (a strip, a half plane, everything)
             inf = float("inf")
